@@ -49,3 +49,14 @@ def lagrange_weights(nodes, x):
                 p *= (x - b) / (a - b)
         w.append(p)
     return w
+
+
+# Non-degenerate physical constants: the defaults tie electron and ion profiles together, make vMin = -vMax,
+# B0 = 1 ..., so a slip between two such constants is invisible with them.
+GENERIC = {'B0': 1.3, 'kTe': 0.31, 'deltaRTe': 1.6, 'CTe': 1.25, 'kTi': 0.27586, 'deltaRTi': 1.45, 'CTi': 1.1, 'kN0': 0.055, 'deltaRN0': 3.1, 'deltaR': 7.0}
+
+
+def generic_constants(c, **extra):
+    for k, v in dict(GENERIC, **extra).items():
+        setattr(c, k, v)
+    return c
